@@ -33,22 +33,23 @@ EXHAUSTIVE = {"quick": True, "thorough": True}
 EXHAUSTIVE_NOTE = "the option x kind x applicable-failure matrix is enumerated completely, once per shape (3 shapes quick, 10 thorough)"
 SHARDS = {"quick": 8, "thorough": 16}
 MIN_REACH = {
-    "attempts": {"quick": 600, "thorough": 2200},
+    "attempts": {"quick": 450, "thorough": 2200},
     "failed_attempts_tree_compared": {"quick": 300, "thorough": 1200},
     "retries_exact": {"quick": 300, "thorough": 1200},
     "sync_before_delete_observed": {"quick": 12, "thorough": 120},
     "reaps_by_an_object_older_than_the_last_sow": {"quick": 30, "thorough": 100},
     "unsynced_farmer_reaps": {"quick": 15, "thorough": 50},
+    "reaps_of_crops_with_surplus_falsy_results": {"quick": 40, "thorough": 150},
 }
 TIME_BUDGET = {"quick": 400, "thorough": 3400}
 
 KINDS = ["raw", "to_ds", "runner", "harvester", "sampler"]
 FAILS = {
-    "raw": ["none", "incomplete", "truncated", "unreadable"],
+    "raw": ["none", "incomplete", "truncated", "unreadable", "overlong"],
     "to_ds": ["none", "incomplete", "truncated", "wrong_descr"],
-    "runner": ["none", "incomplete", "unreadable", "wrong_descr"],
+    "runner": ["none", "incomplete", "unreadable", "wrong_descr", "overlong"],
     "harvester": ["none", "incomplete", "truncated", "wrong_descr", "conflict", "save_fails"],
-    "sampler": ["none", "incomplete", "unreadable", "save_fails"],
+    "sampler": ["none", "incomplete", "unreadable", "save_fails", "overlong"],
 }
 SHAPES = [(6, 2), (5, 2), (4, 1), (7, 3), (3, 1), (8, 3), (9, 4), (6, 6), (2, 1), (10, 3)]
 
@@ -305,6 +306,16 @@ def run_case(ctx, case):
             if to_grow:
                 crop.grow(to_grow)
             bad_batch = None
+            if fail == "overlong":
+                # the LAST result file holds more entries than its batch (a stale result of an earlier, longer sow), and
+                # the surplus values happen to be zeros / None: still not a complete, matching set of results
+                bad_batch = B
+                p = cropkit.result_files(tmp, name)[bad_batch]
+                old = cropkit.read_pickle(p)
+                import pickle as _pk
+                with open(p, "wb") as f_:
+                    _pk.dump(tuple(old) + ((0.0, 0) if case["idx"] % 2 else (None,)), f_)
+                ctx.count("reaps_of_crops_with_surplus_falsy_results")
             if fail in ("truncated", "unreadable"):
                 bad_batch = 1 + (case["idx"] // 3) % B
                 p = cropkit.result_files(tmp, name)[bad_batch]
@@ -347,7 +358,7 @@ def run_case(ctx, case):
                     return "ds.sel(a=%d)[%s]=%r, expected %r" % (a, vn, got, ev)
         return None
 
-    expect_fail = fail in ("truncated", "unreadable", "wrong_descr", "conflict", "save_fails") or \
+    expect_fail = fail in ("truncated", "unreadable", "wrong_descr", "conflict", "save_fails", "overlong") or \
         (fail == "incomplete" and not case["allow_incomplete"]) or \
         (fail == "incomplete" and not to_grow)       # nothing finished at all: even a partial reap has nothing to infer from
     if fail == "save_fails":
@@ -406,7 +417,7 @@ def run_case(ctx, case):
             with quiet():
                 c = xyzpy.Crop(name=name, parent_dir=tmp) if kind in ("raw", "to_ds") else crop
                 retry_opts = dict(opts)
-                if fail in ("truncated", "unreadable"):
+                if fail in ("truncated", "unreadable", "overlong"):
                     got_bad = c.check_bad()
                     if sorted(int(x) for x in got_bad) != [bad_batch]:
                         bad.append("check_bad reported %r, the bad result is batch %d" % (got_bad, bad_batch))
